@@ -466,12 +466,31 @@ def _np_transform(c, t, skip, g, x, pg, st, eps):
     return -mm * out, (diag, dmom, mom)
 
 
-def _np_root(c, S, p):
-    """exact inverse p-th root of the ridge-regularised statistic (eigh root: ridge = eps * max(lambda_max, 1e-6));
-    returns (root, condition number of the regularised matrix)"""
+_PI_CACHE = {}
+
+
+def _impl_max_ev(S32):
+    """the package's own estimate of the largest eigenvalue (public `power_iteration`, as the root routines call it: 100
+    iterations, tolerance 1e-6, fixed start vector). It is a Rayleigh quotient <= lambda_max and can stop at a NON-dominant
+    eigenvalue when the fixed start vector is nearly one of its eigenvectors; the ridge actually used is eps * this value
+    (C01: 'the ridge d actually used'), so the end-to-end reference takes the ridge from it."""
+    import numpy as np
+    import jax
+    import jax.numpy as jnp
+    from precondition import distributed_shampoo as ds
+    a = jnp.asarray(np.asarray(S32, np.float32)).astype(jnp.float64)   # float32 when x64 is off, as in the package
+    key = (a.shape[0], str(a.dtype))
+    if key not in _PI_CACHE:
+        _PI_CACHE[key] = jax.jit(lambda m: ds.power_iteration(m, num_iters=100, error_tolerance=1e-6)[1])
+    return float(_PI_CACHE[key](a))
+
+
+def _np_root(c, S, p, mev=None):
+    """exact inverse p-th root of the ridge-regularised statistic (eigh root: ridge = eps * max(max_ev, 1e-6), max_ev the
+    package's power-iteration estimate when given, else lambda_max); returns (root, condition number of the regularised matrix)"""
     import numpy as np
     w, v = np.linalg.eigh(np.asarray(S, np.float64))
-    lam = float(w.max()) if c["rel_eps"] else 1.0
+    lam = (float(w.max()) if mev is None else float(mev)) if c["rel_eps"] else 1.0
     d = c["mat_eps"] * max(lam, 1e-6)
     wr = np.maximum(w + d, d)
     return (v * wr ** (-1.0 / p)) @ v.T, float(wr.max() / wr.min())
@@ -679,7 +698,12 @@ def _run_task(c):
                     for s in range(nst):
                         err = v1["err"][s] if v1["err"] else 0.0
                         if err == err and err < thr:
-                            r_, kp_ = _np_root(c, e2e["S"][s], p)
+                            mev = _impl_max_ev(v1["S"][s]) if c["rel_eps"] else None
+                            if mev is not None:
+                                lmax = float(np.linalg.eigvalsh(np.asarray(e2e["S"][s], np.float64)).max())
+                                if mev < (1.0 - 1e-3) * lmax:
+                                    stats["power_iteration_below_lambda_max"] = stats.get("power_iteration_below_lambda_max", 0) + 1
+                            r_, kp_ = _np_root(c, e2e["S"][s], p, mev)
                             newP.append(r_)
                             kap = max(kap, kp_)
                         else:
@@ -955,7 +979,7 @@ def execute(ctx, tasks):
         ctx.evaluated(st.get("steps", 0))
         ctx.cov["search_evaluations"] += st.get("steps", 0)
         for k_ in ("e2e", "e2e_inconclusive", "root_checked", "root_inconclusive", "ill_conditioned_updates", "refresh_changed", "packed_steps",
-                   "sharded_compressed_small_statistic_starts_at_zero"):
+                   "sharded_compressed_small_statistic_starts_at_zero", "power_iteration_below_lambda_max"):
             if st.get(k_):
                 ctx.dist("steps." + k_, st[k_])
         for k_ in agg:
@@ -996,7 +1020,9 @@ def run(ctx):
         "(float32 cancellation in the mode products); steps with tol > 1e-3 are counted ill-conditioned",
         "EXACT-DYADIC: on dyadic histories (small integers x 2^k, beta2 in {1, 1/2, 3/4}, matrix_epsilon a power of two) the driver evaluates the "
         "statistics recurrence at exact rationals and flags an entry when every intermediate is a float32 value; flagged entries must be bit-equal",
-        "end to end (eigh): exact float64 roots with ridge matrix_epsilon * max(lambda_max, 1e-6), gate decisions taken from the reported error; "
+        "end to end (eigh): exact float64 roots with ridge matrix_epsilon * max(max_ev, 1e-6) where max_ev is the package's OWN power-iteration "
+        "estimate on the stored statistic (the ridge actually used, C01; it is a Rayleigh quotient <= lambda_max and is counted under "
+        "power_iteration_below_lambda_max when more than 0.1% below), gate decisions taken from the reported error; "
         "tol = 1e-3 kappa^(1/p) max(1, amp/30), steps with tol > 0.05 inconclusive",
         "root residual (Newton): ||P^p (S + dI) - I||_max <= reported error + 2e-6 p kappa + 1e-4 with d = matrix_epsilon * max_eigen_value * "
         "10^(total_retries - 1); checked only when that bound is <= 0.1",
